@@ -64,6 +64,46 @@ func trimPrefix(v interface{}, n uint16) interface{} {
 type idxReport struct {
 	Table, Index     string
 	Stored, Expected []string
+	Unique           bool
+	NIdx             int
+}
+
+// nullRowsMissingFromUnique: the only difference is that entries of rows with a NULL in an indexed
+// column are missing from a UNIQUE index (the shape of the known finding of BuildUniqueProllyIndex).
+func (r idxReport) nullRowsMissingFromUnique() bool {
+	if !r.Unique {
+		return false
+	}
+	st := map[string]bool{}
+	for _, e := range r.Stored {
+		st[e] = true
+	}
+	ex := map[string]bool{}
+	for _, e := range r.Expected {
+		ex[e] = true
+	}
+	for e := range st {
+		if !ex[e] {
+			return false
+		}
+	}
+	n := 0
+	for e := range ex {
+		if st[e] {
+			continue
+		}
+		n++
+		hasNull := false
+		for i, f := range strings.Split(e, ",") {
+			if i < r.NIdx && f == "N" {
+				hasNull = true
+			}
+		}
+		if !hasNull {
+			return false
+		}
+	}
+	return n > 0
 }
 
 func (r idxReport) ok() bool { return strings.Join(r.Stored, ";") == strings.Join(r.Expected, ";") }
@@ -157,7 +197,7 @@ func checkTable(ctx context.Context, name string, tbl *doltdb.Table) ([]idxRepor
 	}
 	var out []idxReport
 	for _, def := range sch.Indexes().AllIndexes() {
-		rep := idxReport{Table: name, Index: def.Name()}
+		rep := idxReport{Table: name, Index: def.Name(), Unique: def.IsUnique(), NIdx: len(def.IndexedColumnTags())}
 		tags := def.AllTags()
 		if keyless {
 			// keyless secondary index key = indexed columns ++ row hash id; empty value (one entry per distinct row)
